@@ -36,9 +36,27 @@ def run(ctx, rep):
     rep.trusted_base += ["clang 14 AST/CFG", "dfacts", "rules/c12.json"]
     readers = set(tab["value_readers"])
     n_sites = 0
+    def holder(fn, depth=0):
+        """the function that holds the option tests: the site itself, or the file-local helper / lambda the
+        whole parameter set-up was moved into"""
+        if any(tree is not None and any(n.get("k") == "lit" and n.get("s") in tab["option_keys"] for n in walk(tree))
+               for b_, k_, tree, e_ in fn.roots()):
+            return fn
+        if depth >= 2:
+            return None
+        for c, cb, rk, ev in fn.calls():
+            if c.get("virt"):
+                continue
+            for t in F.targets(c):
+                if t.is_lambda or "(anonymous namespace)" in t.name or (not t.cls and t.file == fn.file):
+                    h = holder(t, depth + 1)
+                    if h is not None:
+                        return h
+        return None
     for fb in tab["explicit_sites"]:
         for fn in F.need(fb):
             n_sites += 1
+            fn = holder(fn) or fn
             tests = []
 
             class _T:           # a test block with the edge on which the option(s) are set as succ[0]
@@ -309,5 +327,9 @@ def oneround(ctx, rep, tab):
                                    detail=allowed.get(fn.base, "") if ok else
                                    "a second float->integer conversion on the quantization path: the grid vertex a "
                                    "coordinate maps to now depends on which path the geometry takes"))
+    if not any(fb in allowed for fb, _ in seen if not fb.startswith("verif_control::")):
+        from ..substrate import AnalysisBroken
+        raise AnalysisBroken("ONEROUND: none of the listed rounding functions %s is on the quantization paths any "
+                             "more (renamed?): re-anchor rules/c12.json" % sorted(allowed))
     rep.floor("float->integer conversion sites on the quantization paths", n_sites, 1)
     rep.control("ONEROUND", "c12_round_bad", fired, "a second rounding function on the quantization path must be reported")
